@@ -1,5 +1,5 @@
 #!/usr/bin/env python3
-"""tools/seeded_meta.py <final logs> ... [--before <first-measurement logs> ...]
+"""tools/seeded_meta.py <full-matrix logs> ... [--before <first-measurement logs> ...] [--final-own <own-check-only logs of the final machinery> ...]
 Write /verif/seeded/<ID>/meta.json from the logs of tools/try_mutant.sh runs (sections start with
 '##### seeded <ID>') and from each seeded change's NOTES.md."""
 import json, os, re, sys
@@ -46,14 +46,28 @@ def parse(logs):
     return results
 
 
+def take(args, flag):
+    """remove `flag a b c` (up to the next --flag) from args and return [a, b, c]"""
+    if flag not in args:
+        return []
+    i = args.index(flag)
+    j = i + 1
+    while j < len(args) and not args[j].startswith("--"):
+        j += 1
+    vals = args[i + 1:j]
+    del args[i:j]
+    return vals
+
+
 args = sys.argv[1:]
-before_logs = []
-if "--before" in args:
-    i = args.index("--before")
-    before_logs = args[i + 1:]
-    args = args[:i]
+before_logs = take(args, "--before")
+final_own_logs = take(args, "--final-own")
 results = parse(args)
 before = parse(before_logs)
+final_own = parse(final_own_logs)
+# a change that only has a first measurement (latest round) still gets a meta file
+for sid in list(before) + list(final_own):
+    results.setdefault(sid, before.get(sid) or final_own.get(sid))
 
 props = {json.loads(l)["id"]: json.loads(l) for l in open(os.path.join(HERE, "properties.jsonl"))}
 for sid, r in results.items():
@@ -88,10 +102,18 @@ for sid, r in results.items():
     if sid in before:
         b = before[sid]
         meta["first_measurement_before_strengthening"] = {
-            "how": "tools/iso_run.sh with ISO_REV=pre-r4: the machinery exactly as committed BEFORE this change was looked at (scratch worktree of /repo + git archive of /verif at that tag)",
+            "how": "tools/iso_run.sh with ISO_REV=<tag taken before this round's changes were looked at> (pre-r4 / pre-r5): scratch worktree of /repo + git archive of /verif at that tag, all 20 quick checks",
             "fired": sorted(b["fired"]), "inconclusive": b["inconclusive"],
             "caught_by_own_property_check": pid in b["fired"],
             "caught_by_any_check": bool(b["fired"]),
+        }
+    if sid in final_own:
+        f = final_own[sid]
+        meta["final_machinery_own_check"] = {
+            "how": "ISO_OWN_ONLY=1 tools/iso_run.sh with the machinery as committed at the end: only the quick check of the property the change is aimed at",
+            "fired": pid in f["fired"],
+            "inconclusive": pid in f["inconclusive"],
+            "examples": (f["fired"].get(pid) or {}).get("examples", []),
         }
     json.dump(meta, open(os.path.join(d, "meta.json"), "w"), indent=1)
     print(sid, "fired:", sorted(r["fired"]), "inconclusive:", sorted(r["inconclusive"]))
